@@ -161,6 +161,37 @@ def make_cfg(spec: dict):
     return MazeDatasetConfig(**kw)
 
 
+def scramble(x):
+    """edit a data structure the library handed out, in place, everywhere (dict entries, list items, array contents): what a
+    caller who owns the structure may do to it.  Used only on structures taken from a *donor* object built from its own copies
+    of everything, so that nothing the donor legitimately shares with its own form is judged: only state shared through the
+    library (memoised forms, module-level tables) can carry the edit to another object."""
+    if isinstance(x, dict):
+        for k in list(x):
+            v = x[k]
+            if isinstance(v, (dict, list, np.ndarray)):
+                scramble(v)
+            elif isinstance(v, bool):
+                x[k] = not v
+            elif isinstance(v, str):
+                x[k] = v + "~"
+            elif isinstance(v, (int, float)):
+                x[k] = v + 1
+        x["__edited__"] = 1
+    elif isinstance(x, list):
+        for i, v in enumerate(x):
+            if isinstance(v, (dict, list, np.ndarray)):
+                scramble(v)
+            elif isinstance(v, str):
+                x[i] = v + "~"
+        x.append("~")
+    elif isinstance(x, np.ndarray) and x.flags.writeable and x.size:
+        if x.dtype == np.bool_:
+            x[...] = ~x
+        elif np.issubdtype(x.dtype, np.number):
+            x[...] = x + 1
+
+
 def _norm(x):
     "JSON-normalise: tuples -> lists, numpy -> python, dict keys -> str"
     if isinstance(x, dict):
